@@ -108,7 +108,8 @@ func (h *Host) HostCall(pc ProgramCounter, instrCount uint64) (psi_result Psi_H_
 
 		// reason.Reason == HOST_CALL
 		var input OmegaInput
-		input.Operation = OperationType(exitReason.GetHostCallID())
+		// the full identifier, not its low byte: 256+k must not run host call k
+		input.Operation = OperationType(exitReason.HostCallID())
 		input.VM = &VMState{
 			Registers: &h.Interpreter.Registers,
 			Memory:    h.Interpreter.Memory,
